@@ -869,3 +869,83 @@ def gen_build_tables(read):
         "",
     ]
     return "BuildTables.v", "\n".join(lines)
+
+
+# ------------------------------------------------------------------------------------------------ the configuration gate
+def macro_calls(body, names):
+    """[(macro, inner text)] for every `<macro>!( ... )` with balanced parentheses (string literals skipped)"""
+    out = []
+    for m in re.finditer(r"\b(%s)!\s*\(" % "|".join(names), body):
+        j, depth, instr = m.end(), 1, False
+        while depth:
+            if j >= len(body):
+                die("unbalanced macro call in debug_asserts.rs")
+            c = body[j]
+            if instr:
+                if c == "\\":
+                    j += 1
+                elif c == '"':
+                    instr = False
+            elif c == '"':
+                instr = True
+            elif c == "(":
+                depth += 1
+            elif c == ")":
+                depth -= 1
+            j += 1
+        out.append((m.group(1), body[m.end():j - 1]))
+    return out
+
+
+def gen_gate_sites(read):
+    """builder/debug_asserts.rs: every assertion of the configuration gate, per function, in source order, identified by the
+    first 60 characters of its message; the `checker!` tables of assert_arg_flags / assert_app_flags."""
+    src = read("clap_builder/src/builder/debug_asserts.rs")
+    # comments are stripped outside string literals only (messages contain `//`-free text, but be careful with "http://")
+    code = re.sub(r'("(?:[^"\\]|\\.)*")|//[^\n]*', lambda m: m.group(1) or "", src, flags=re.S)
+    sites = []
+    for name, header, body in split_fns(code):
+        if name in ("duplicate_tip", "find_duplicates"):
+            continue
+        for mac, inner in macro_calls(body, ["assert", "assert_eq", "assert_ne", "panic", "debug_assert", "unreachable", "todo", "unimplemented"]):
+            lits = re.findall(r'"((?:[^"\\]|\\.)*)"', inner, re.S)
+            if not lits:
+                die("debug_asserts.rs %s: a %s! without a message literal: %s" % (name, mac, norm(inner)[:120]))
+            msg = lits[0]
+            if re.fullmatch(r"(?:Command \{\}: )?\{\}", msg) and len(lits) > 1:
+                msg = lits[1]          # assert!(cond, "Command {}: {}", name, "<the actual text>")
+            msg = norm(re.sub(r"\\\s*\n\s*", "", msg).replace("\\n", " ").replace("\\t", " "))
+            sites.append((name, mac, msg[:60]))
+    if not sites:
+        die("no assertions found in debug_asserts.rs")
+
+    def checker_rows(fn, kw):
+        body = fn_body(code, r"fn\s+%s\s*\(\s*\w+\s*:\s*&\w+\s*\)" % fn, fn)
+        rows = re.findall(r"checker!\(\s*(\w+)\s+%s\s+([\w\s|]+?)\s*\)\s*;" % kw, body)
+        n_calls = len(re.findall(r"checker!\(", body))
+        if not rows or len(rows) != n_calls:
+            die("%s: cannot read the checker! table (%d rows read, %d calls)" % (fn, len(rows), n_calls))
+        return [(a, [b.strip() for b in bs.split("|")]) for a, bs in rows]
+    arg_rows = checker_rows("assert_arg_flags", "requires")
+    app_rows = checker_rows("assert_app_flags", "conflicts")
+
+    def sl(l):
+        return "[" + "; ".join(cstr(x) for x in l) + "]"
+    lines = [
+        "(* GENERATED by translators/builder_tables.py from clap_builder/src/builder/debug_asserts.rs -- do not edit. *)",
+        "From Coq Require Import List String.",
+        "Import ListNotations.",
+        "Open Scope string_scope.",
+        "",
+        "(* every assert!/assert_eq!/panic! of the configuration gate: (function, macro, first 60 characters of the message) *)",
+        "Definition gen_gate_sites : list (string * string * string) := "
+        + clist(["(%s, %s, %s)" % (cstr(f), cstr(m), cstr(t)) for f, m, t in sites]) + ".",
+        "(* assert_arg_flags: `checker!(a requires b | ..)` *)",
+        "Definition gen_arg_flag_requires : list (string * list string) := "
+        + clist(["(%s, %s)" % (cstr(a), sl(bs)) for a, bs in arg_rows]) + ".",
+        "(* assert_app_flags: `checker!(a conflicts b | ..)` *)",
+        "Definition gen_app_flag_conflicts : list (string * list string) := "
+        + clist(["(%s, %s)" % (cstr(a), sl(bs)) for a, bs in app_rows]) + ".",
+        "",
+    ]
+    return "GateSites.v", "\n".join(lines)
